@@ -1594,7 +1594,18 @@ class DataStoreMgr:
                         TASK_STATUS_SUCCEEDED
                     )
             ):
-                for message in json.loads(outputs_str):
+                outputs = json.loads(outputs_str)
+                if isinstance(outputs, dict):
+                    # {trigger: message} - match triggers, not messages.
+                    messages = [
+                        itask.tdef.outputs[trigger][0]
+                        for trigger in outputs
+                        if trigger in itask.tdef.outputs
+                    ]
+                else:
+                    # BACK COMPAT: [message] (Cylc >8.0.0,<8.3.0)
+                    messages = outputs
+                for message in messages:
                     itask.state.outputs.set_message_complete(message)
             # Gather tasks with flow id.
             prereq_ids.add(f'{relative_id}/{flow_nums_str}')
